@@ -12,6 +12,7 @@ import (
 	"google.golang.org/grpc/codes"
 	"google.golang.org/grpc/status"
 	"google.golang.org/protobuf/proto"
+	metav1 "k8s.io/apimachinery/pkg/apis/meta/v1"
 	"k8s.io/apimachinery/pkg/apis/meta/v1/unstructured"
 	"k8s.io/apimachinery/pkg/types"
 	"sigs.k8s.io/controller-runtime/pkg/reconcile"
@@ -54,13 +55,48 @@ func composedKind(k simapi.ObjKey) bool {
 
 func (prop) Run(t *testing.T, s *sim.Sim, res *runner.Result) {
 	var fn *simfn.Transport
+	takenOver := false
 	xrworld.Run(s, res, xrworld.Hooks{
 		Opts: func(t *sim.Tape) xrworld.Opts {
 			lag := t.Next(2) == 1
 			return xrworld.Opts{FnFaults: true, LagComposed: lag, LagManual: lag && t.Next(2) == 1}
 		},
-		Params: xrworld.DrawParams{Fatal: true, Requirements: true, Anonymous: true},
+		Params: xrworld.DrawParams{Fatal: true, Requirements: true, Anonymous: true, RepeatedResults: true, RequireOnce: true},
 		Faults: []sim.Outcome{sim.ErrBefore, sim.ErrAfter, sim.Conflict, sim.Stale},
+		Env: func(w *xrworld.W, wl *xrworld.Workload) []sim.Action {
+			cs := w.ComposedObjects()
+			if len(cs) == 0 {
+				return nil
+			}
+			// the same object, but its controller reference now names another owner
+			return []sim.Action{{Key: "control of a composed resource passes to a stranger", Weight: 2, Run: func() {
+				c := cs[s.Tape.Next(len(cs))]
+				u := c.Obj.DeepCopy()
+				if c.OwnerUID == "stranger-uid" {
+					return
+				}
+				t := true
+				u.SetOwnerReferences([]metav1.OwnerReference{{APIVersion: "v1", Kind: "ConfigMap", Name: "stranger", UID: "stranger-uid", Controller: &t}})
+				if w.Direct.Update(context.Background(), u) == nil {
+					w.S.Probe("composed-resource-taken-over-by-a-stranger")
+					takenOver = true
+				}
+			}}}
+		},
+		Final: func(w *xrworld.W, wl *xrworld.Workload, quiet bool) {
+			if quiet {
+				return
+			}
+			// while a composed resource of a still existing template is controlled by
+			// somebody else its apply fails at every reconcile, and the templates after
+			// it get a fresh generated name recorded every time: no fixpoint, and not
+			// what this property is about
+			if takenOver {
+				w.S.Probe("no-quiescence-while-a-composed-resource-is-controlled-by-a-stranger")
+				return
+			}
+			res.Inconclusive = "no-quiescence"
+		},
 		Setup: func(w *xrworld.W, wl *xrworld.Workload) error {
 			ctx := context.Background()
 			for i, n := range []string{"e0", "e1", "e2"} {
@@ -349,6 +385,13 @@ func judge(w *xrworld.W, fn *simfn.Transport, key types.NamespacedName, t *sim.T
 			}
 			if rn == "" || desired[rn] || ou.GetDeletionTimestamp() != nil {
 				continue
+			}
+			if now := st.Peek(k); now != nil {
+				// control passed to another owner while this reconcile ran: not its to delete
+				if c := controllerUID(&unstructured.Unstructured{Object: now}); c != "" && c != xrUID {
+					w.S.Probe("undesired-resource-taken-over-meanwhile")
+					continue
+				}
 			}
 			if !deleted[k.String()] && st.Peek(k) != nil {
 				missing = append(missing, k.String())
